@@ -13,8 +13,9 @@ Transcription rules
   unreachable. Implicit run-time panics (index out of range, `append` beyond capacity with Go's growth
   policy) are NOT modelled: indexes are read with a default and the invariant `Inv` (indexes in range,
   `len < cap` at `append`) shows the default is never used on a reachable buffer.
-* `purge` is the code AFTER the repair recorded in findings/C03.txt (the ring is reset when it drains);
-  `purgeOld` is the function as it was at snapshot ef0888e, kept for the counterexample theorems.
+* `insert` is the code AFTER the repair recorded in findings/C03.txt (`start` wraps together with `stop` when
+  the ring had drained at the end of the slice); `insertOld` is the function as it was at snapshot ef0888e,
+  kept for the counterexample theorems.
 * Times are `Int` nanoseconds since the Unix epoch. `time.Time.Truncate(d)` works on the absolute time since
   the year 1 (`goEpochOffset` ns before the Unix epoch) and is the identity for `d ≤ 0`; `Add`, `Before`,
   `After` are integer arithmetic (no `int64` overflow — an assumption of the check).
@@ -72,31 +73,48 @@ def Buf.growWith (nil : Pt) (b : Buf) : Buf :=
     let (w, n2) := goCopy w (b.size - b.start) (slice b.window 0 b.stop)
     { b with window := w, cap := c, start := 0, stop := b.size, panicked := b.panicked || n1 + n2 != b.size }
 
-/-- `windowTimeBuffer.insert`. -/
-def Buf.insertWith (nil : Pt) (b : Buf) (p : Pt) : Buf :=
+/-- The wrap-around step of `insert` as of snapshot ef0888e:
+`if len(b.window) == cap(b.window) && b.stop == len(b.window) { b.stop = 0 }`. -/
+def Buf.wrapOld (b : Buf) : Buf :=
+  if b.window.length == b.cap && b.stop == b.window.length then { b with stop := 0 } else b
+
+/-- The wrap-around step today (after the repair recorded in findings/C03.txt): when the ring was purged
+completely with `stop` at the end of the slice (`start == len`), `start` wraps too. -/
+def Buf.wrap (b : Buf) : Buf :=
+  if b.window.length == b.cap && b.stop == b.window.length then
+    let b := { b with stop := 0 }
+    if b.start == b.window.length then { b with start := 0 } else b
+  else b
+
+/-- `windowTimeBuffer.insert`, with the wrap-around step as a parameter (old / current). -/
+def Buf.insertCore (wrapF : Buf → Buf) (nil : Pt) (b : Buf) (p : Pt) : Buf :=
   let b := if b.size == b.cap then b.growWith nil else b
   -- Check if we need to wrap around
-  let b := if b.window.length == b.cap && b.stop == b.window.length then { b with stop := 0 } else b
+  let b := wrapF b
   -- Insert point
   let b := if b.stop == b.window.length then { b with window := b.window ++ [p] }
            else { b with window := b.window.set b.stop p }
   { b with size := b.size + 1, stop := b.stop + 1 }
 
+def Buf.insertWith (nil : Pt) (b : Buf) (p : Pt) : Buf := Buf.insertCore Buf.wrap nil b p
 def Buf.insert (b : Buf) (p : Pt) : Buf := b.insertWith nilPt p
+/-- `insert` as of snapshot ef0888e (kept for the counterexample theorems). -/
+def Buf.insertOld (b : Buf) (p : Pt) : Buf := Buf.insertCore Buf.wrapOld nilPt b p
 
 /-- the closure `include` of `purge` -/
 def includes (oldest : Int) (inclusive : Bool) (t : Int) : Bool :=
   if inclusive then !decide (t < oldest) else decide (t > oldest)
 
-/-- The loop `for ; i < hi; i++ { if include(window[i].Time()) { break } }`; returns the final `i`. -/
-def scan (w : List Pt) (inc : Int → Bool) (i hi : Nat) : Nat :=
-  if i < hi then
-    if inc (w.getD i nilPt).t then i else scan w inc (i + 1) hi
-  else i
-termination_by hi - i
+/-- The loop `for ; i < hi; i++ { if include(window[i].Time()) { break } }` with `n = hi - i` iterations
+left; returns the final `i`. -/
+def scanAux (w : List Pt) (inc : Int → Bool) : Nat → Nat → Nat
+  | 0, i => i
+  | n + 1, i => if inc (w.getD i nilPt).t then i else scanAux w inc n (i + 1)
 
-/-- `windowTimeBuffer.purge` as of snapshot ef0888e (three branches, no reset). -/
-def Buf.purgeOld (b : Buf) (oldest : Int) (inclusive : Bool) : Buf :=
+def scan (w : List Pt) (inc : Int → Bool) (i hi : Nat) : Nat := scanAux w inc (hi - i) i
+
+/-- `windowTimeBuffer.purge` (three branches). -/
+def Buf.purge (b : Buf) (oldest : Int) (inclusive : Bool) : Buf :=
   let inc := includes oldest inclusive
   let l := b.window.length
   if l == 0 then b
@@ -109,12 +127,6 @@ def Buf.purgeOld (b : Buf) (oldest : Int) (inclusive : Bool) : Buf :=
   else
     let s := scan b.window inc 0 b.stop
     { b with start := s, size := b.stop - s }
-
-/-- `windowTimeBuffer.purge` today: as before, then `if b.size == 0 { b.start = 0; b.stop = 0 }`. -/
-def Buf.purge (b : Buf) (oldest : Int) (inclusive : Bool) : Buf :=
-  let b' := b.purgeOld oldest inclusive
-  if b.window.length == 0 then b'
-  else if b'.size == 0 then { b' with start := 0, stop := 0 } else b'
 
 /-- `windowTimeBuffer.points` (the two-segment copy). -/
 def Buf.points (b : Buf) : List Pt :=
@@ -162,51 +174,51 @@ def TW.init (c : TCfg) (t : Int) : TW :=
 /-- `windowByTime.batch(tmax)`. -/
 def TW.batch (w : TW) (tmax : Int) : Batch := { tmax := tmax, pts := w.buf.points }
 
-/-- `windowByTime.Point`, with the purge function as a parameter (old / current). -/
-def TW.pointWith (pg : Buf → Int → Bool → Buf) (w : TW) (p : Pt) : TW × Option Batch :=
+/-- `windowByTime.Point`, with the buffer's insert function as a parameter (old / current). -/
+def TW.pointWith (ins : Buf → Pt → Buf) (w : TW) (p : Pt) : TW × Option Batch :=
   if w.cfg.every == 0 then
     -- Insert point before.
-    let w := { w with buf := w.buf.insert p }
+    let w := { w with buf := ins w.buf p }
     if !decide (p.t < w.nextEmit) then
       let oldest := p.t + -1 * w.cfg.period
-      let w := { w with buf := pg w.buf oldest false }
+      let w := { w with buf := w.buf.purge oldest false }
       let msg := w.batch p.t
       ({ w with nextEmit := p.t }, some msg)
     else (w, none)
   else
     if !decide (p.t < w.nextEmit) then
       let oldest := w.nextEmit + -1 * w.cfg.period
-      let w := { w with buf := pg w.buf oldest true }
+      let w := { w with buf := w.buf.purge oldest true }
       let msg := w.batch w.nextEmit
       let ne := p.t + w.cfg.every
       let ne := if w.cfg.align then truncate ne w.cfg.every else ne
       let w := { w with nextEmit := ne }
       -- Insert point after.
-      ({ w with buf := w.buf.insert p }, some msg)
+      ({ w with buf := ins w.buf p }, some msg)
     else
-      ({ w with buf := w.buf.insert p }, none)
+      ({ w with buf := ins w.buf p }, none)
 
 /-- `windowByTime.Barrier`. -/
-def TW.barrierWith (pg : Buf → Int → Bool → Buf) (w : TW) (t : Int) : TW × Option Batch :=
+def TW.barrierWith (_ins : Buf → Pt → Buf) (w : TW) (t : Int) : TW × Option Batch :=
   if w.cfg.every == 0 then
     if !decide (t < w.nextEmit) then
       let oldest := t + -1 * w.cfg.period
-      let w := { w with buf := pg w.buf oldest false }
+      let w := { w with buf := w.buf.purge oldest false }
       let msg := w.batch t
       ({ w with nextEmit := t }, some msg)
     else (w, none)
   else
     if !decide (t < w.nextEmit) then
       let oldest := w.nextEmit + -1 * w.cfg.period
-      let w := { w with buf := pg w.buf oldest true }
+      let w := { w with buf := w.buf.purge oldest true }
       let msg := w.batch w.nextEmit
       let ne := t + w.cfg.every
       let ne := if w.cfg.align then truncate ne w.cfg.every else ne
       ({ w with nextEmit := ne }, some msg)
     else (w, none)
 
-def TW.point (w : TW) (p : Pt) : TW × Option Batch := w.pointWith Buf.purge p
-def TW.barrier (w : TW) (t : Int) : TW × Option Batch := w.barrierWith Buf.purge t
+def TW.point (w : TW) (p : Pt) : TW × Option Batch := w.pointWith Buf.insert p
+def TW.barrier (w : TW) (t : Int) : TW × Option Batch := w.barrierWith Buf.insert t
 
 /-- A message delivered to one group's window receiver. -/
 inductive Msg where
@@ -218,24 +230,24 @@ def Msg.t : Msg → Int
   | .point p => p.t
   | .barrier t => t
 
-def TW.stepWith (pg : Buf → Int → Bool → Buf) (w : TW) : Msg → TW × Option Batch
-  | .point p => w.pointWith pg p
-  | .barrier t => w.barrierWith pg t
+def TW.stepWith (ins : Buf → Pt → Buf) (w : TW) : Msg → TW × Option Batch
+  | .point p => w.pointWith ins p
+  | .barrier t => w.barrierWith ins t
 
-def TW.step (w : TW) (m : Msg) : TW × Option Batch := w.stepWith Buf.purge m
+def TW.step (w : TW) (m : Msg) : TW × Option Batch := w.stepWith Buf.insert m
 
 /-- Run a window over the messages of its group; the window is created by the first message
 (`WindowNode.NewGroup(group, first)` → `newWindowByTime(…, first.Time(), …)`). Result: what each message
 emitted, in order. -/
-def TW.runFrom (pg : Buf → Int → Bool → Buf) (w : TW) : List Msg → List (Option Batch)
+def TW.runFrom (ins : Buf → Pt → Buf) (w : TW) : List Msg → List (Option Batch)
   | [] => []
-  | m :: ms => let (w', o) := w.stepWith pg m; o :: TW.runFrom pg w' ms
+  | m :: ms => let (w', o) := w.stepWith ins m; o :: TW.runFrom ins w' ms
 
-def runTimeWith (pg : Buf → Int → Bool → Buf) (c : TCfg) : List Msg → List (Option Batch)
+def runTimeWith (ins : Buf → Pt → Buf) (c : TCfg) : List Msg → List (Option Batch)
   | [] => []
-  | m :: ms => TW.runFrom pg (TW.init c m.t) (m :: ms)
+  | m :: ms => TW.runFrom ins (TW.init c m.t) (m :: ms)
 
-def runTime (c : TCfg) (ms : List Msg) : List (Option Batch) := runTimeWith Buf.purge c ms
+def runTime (c : TCfg) (ms : List Msg) : List (Option Batch) := runTimeWith Buf.insert c ms
 
 /-! ### windowByCount -/
 
